@@ -2,8 +2,8 @@
 # Hooks H2/H3 live in /repo behind cargo feature `verif-hooks` (enabled only by mon-afc).
 
 HOOKS["source_commits"] += [
-    "9625eab verif hook: H2 export fast-channels mutex and add pause points",
-    "063ebd5 verif hook: H3 read-only snapshots of the shm channel lists",
+    "9625eab",  # H2 export fast-channels mutex and add pause points
+    "063ebd5",  # H3 read-only snapshots of the shm channel lists
 ]
 
 _MIRI = dict(miriflags="-Zmiri-disable-isolation -Zmiri-preemption-rate=0.1",
